@@ -127,6 +127,9 @@ ASSUMED = [
                    'evaluation: eval_func, below; what a failed range evaluation leaves behind: _evaluate_range[plain, may fail])'),
 ]
 
+# a node of the graph as the failure handler of _process_gen_graph looks at it: value / formula present or not
+GRAPH_NODE = Record('pycel.excelcompiler:_Cell', {'value': Union(NoneT(), Int()), 'formula': Union(NoneT(), Const('formula'))})
+
 CONTRACTS = [
     Contract(CTX + '.__enter__', 'C09', record=True,
              params=dict(self=Record(CTX, {'_ns': Namespace(ctx_addresses=Union(Tuple(Const(False), kind='list'),
@@ -155,9 +158,14 @@ CONTRACTS = [
                                                            Tuple(Str(maxlen=4), Str(maxlen=4), kind='list')),
                                       'log': AnyObj(),
                                       # on a failed calculation the dependants of the failed node are un-cached
-                                      'dep_graph': Namespace(successors=Abstract('successors', Union(
-                                          Tuple(kind='list'), Tuple(ObjRef(), kind='list'),
-                                          Tuple(ObjRef(), ObjRef(), kind='list')))),
+                                      'dep_graph': Namespace(
+                                          successors=Abstract('successors', Union(
+                                              Tuple(kind='list'), Tuple(ObjRef(), kind='list'),
+                                              Tuple(ObjRef(), ObjRef(), kind='list'))),
+                                          nodes=Abstract('nodes', Union(
+                                              Tuple(kind='list'), Tuple(GRAPH_NODE, kind='list'),
+                                              Tuple(GRAPH_NODE, GRAPH_NODE, kind='list')))),
+                                      'cycles': Const(False),
                                       '_reset': Abstract('_reset', NoneT()),
                                       'cell_map': AnyObj()})),
              ensures=[range_todos_emptied], raises={e: range_todos_emptied for e in PYCEL_ERRORS},
